@@ -150,6 +150,8 @@ Refines ==                                                                      
     /\ Times \subseteq Allowed(scn, tl)
     /\ \A i \in DOMAIN rows : rows[i].st = StatusAt(scn, tl, rows[i].t)
 NeverBackwards == [][now' > prevT']_vars
+\* C11.def_unchanged at the level of the algorithm: no action of the simulator writes the model definition
+DefinitionUnchanged == [][scn' = scn]_vars
 \* expected observable timeline for the replay harness
 Emit == pc = "done" /\ IOEnv.EMIT = "1" =>
           LET tl == aux.tl IN
